@@ -284,7 +284,7 @@ func cmdCheck(args []string) {
 			}
 			byBackend[name]++
 			solverTime += o.Time
-		} else {
+		} else if o.Status != "skipped" { // "skipped": not attempted in the selftest's fail-fast mode
 			failed = append(failed, o)
 		}
 	}
